@@ -26,6 +26,8 @@ LEVEL = {
             "Iter's pointer arithmetic is modelled as list traversal; that Iter visits exactly the cached archetypes is tied by the `trace` channel (this is where F9 was found)."),
     "C07": ("full-core", "Proof for every history of inserts (increasing serials) and removes of the three-segment handler list: entries are always ordered by priority class then insertion serial, a new handler goes to the end of its class, removal moves nothing else. World level (new archetypes register handlers in insertion order; global and per-archetype lists) is tied by the `trace` channel and, in C17 runs, by exact comparison of every list with the hook snapshot and the executable invariant.",
             "That the world's insert counter is strictly increasing and that new archetypes iterate by_insert_order is modelled and validated, not proved."),
+    "C09": ("full-core", "Proof about the model's own per-event step `deliverOne` (decomposed, by rfl, into lookup / handler loop / built-in effect): the lookup changes nothing, so every handler starts from the state at pop time; the built-in effect is applied exactly once, after the handler loop, to the state the handlers left, and (by the depth-first theorem) before anything they queued is delivered; it runs iff the target is alive (or the event global) and no handler took the event; a dead target leaves the world unchanged up to the two destruction ledgers and a value that was to be inserted is destroyed; the effects are pinned by unfolding to spawnAll / removeEntity / traverse+moveEntity, inserting an existing component is an in-place assign that drops the old value, removing an absent one changes nothing. Correspondence: store, trace and destruction channels on dense handler graphs with takers, dead targets and reactions to the same entity.",
+            "`a spawned entity exists once its Spawn event has been delivered` is pinned to spawnAll by unfolding and to the slot-map prediction theorem (C03 spawn_all); the loop invariant joining the two inside the monadic world is validated (store channel), not proved."),
     "C11": ("full-core", "Proof about the executed event loop for EVERY per-event step: the events delivered by a flush are exactly (as a multiset, no duplicates) the initially queued events plus everything any delivery left queued — none delivered twice, none lost — and nothing is queued on return; for the model's own `deliverOne`, the per-delivery disposition of the event ledger is proved (dead target / taken / normal completion each destroy the in-flight user event exactly once, built-in events add nothing), hence `flush_destroys_each_user_event_once`. Correspondence: multiset of destroyed event serials and component values per operation, incl. values of unapplied Inserts and events dropped when registration unwinds.",
             "The storage half of the disposition (an applied Insert's value is stored, not dropped) rests on the C02/C12 theorems about moveCols and on the `cdrops` channel; it is not restated for the monadic deliverOne."),
     "C12": ("full-core", "Proof (pure counterparts of move_entity / remove_entity built from the same moveCols, swapRemove, assignCol as the world model, any number of archetypes/columns/rows): conservation — stored + newly supplied cells = stored afterwards + dropped, as multisets; the dropped cells of a despawn are exactly the entity's; a dropped serial is not reachable through get afterwards and no reachable cell is dropped. Layout classes (sized/zero-sized x plain/over-aligned x destructor) are covered on the implementation side by six component types whose destructors log; the `cdrops` channel compares per-operation multisets incl. world drop and component-type removal. F5 fixed.",
